@@ -169,6 +169,7 @@ TRANSLATOR_OUTPUT = {
     "tables2lean.py": "OH.Generated.Tables",
     "countries2lean.py": "OH.Generated.Countries",
     "shared_state_inventory.py": "OH.Generated.SharedState",
+    "rs2lean.py": "OH.Generated.Arith",
 }
 
 
